@@ -1,4 +1,5 @@
-(* compiled = interp on the pattern AST (induction over the word list). *)
+(* compiled = interp (the documented word-level language) on the pattern AST, for every pattern
+   (induction over the word list). *)
 From CV Require Import Base.Bytes MC.Gen_TokTypes MC.Defs.
 Require Import Lia.
 Local Open Scope N_scope.
@@ -28,13 +29,6 @@ Proof.
     + apply N.eqb_eq in Hty. unfold isName. rewrite Hty. apply eVariable_is_name.
 Qed.
 
-Lemma compiled_nil varid ws :
-  compiled varid ws [] = forallb (fun x => is_opt x || is_not_w x) ws.
-Proof.
-  induction ws as [|w ws IH]; [reflexivity|].
-  destruct w as [cs | l | atoms [|]]; cbn; try rewrite IH; reflexivity.
-Qed.
-
 Definition varid_ok (varid : N) (p : pat) : Prop := uses_varid p = true -> varid <> 0.
 
 Lemma varid_ok_tail varid w ws : varid_ok varid (w :: ws) -> varid_ok varid ws.
@@ -54,11 +48,10 @@ Proof.
 Qed.
 
 Theorem compiled_eq_interp varid p toks :
-  no_opt_tail p = true -> varid_ok varid p -> Forall (fun t => tk_inv t = true) toks ->
+  varid_ok varid p -> Forall (fun t => tk_inv t = true) toks ->
   compiled varid p toks = interp varid p toks.
 Proof.
-  revert toks. induction p as [|w ws IH]; intros toks Hno Hv Htoks; [reflexivity|].
-  cbn [no_opt_tail] in Hno. apply andb_prop in Hno as [Hno Hw].
+  revert toks. induction p as [|w ws IH]; intros toks Hv Htoks; [reflexivity|].
   pose proof (varid_ok_tail _ _ _ Hv) as Hv'.
   destruct w as [cs | l | atoms opt].
   - destruct toks as [|t r]; [reflexivity|]. cbn. inversion Htoks; subst. now rewrite IH.
@@ -68,10 +61,9 @@ Proof.
     { intros t Ht. apply existsb_ext_in. intros a Ha. apply catom_match_eq; [assumption|].
       now apply (varid_ok_atom varid atoms opt ws a). }
     destruct opt.
-    + destruct toks as [|t r].
-      * cbn. rewrite compiled_nil. cbn in Hw. now apply negb_true_iff in Hw.
-      * inversion Htoks; subst. cbn. rewrite Hex by assumption.
-        destruct (existsb _ atoms); now apply IH.
+    + destruct toks as [|t r]; [cbn; now apply IH|].
+      inversion Htoks; subst. cbn. rewrite Hex by assumption.
+      destruct (existsb _ atoms); now apply IH.
     + destruct toks as [|t r]; [reflexivity|]. inversion Htoks; subst. cbn.
       rewrite Hex by assumption. destruct (existsb _ atoms); [now apply IH|reflexivity].
 Qed.
@@ -93,40 +85,9 @@ Proof.
 Qed.
 
 Theorem find_compiled_eq_interp varid p toks endi :
-  no_opt_tail p = true -> varid_ok varid p -> Forall (fun t => tk_inv t = true) toks ->
+  varid_ok varid p -> Forall (fun t => tk_inv t = true) toks ->
   find_from (compiled varid p) toks endi 0 = find_from (interp varid p) toks endi 0.
 Proof.
   intros. apply find_from_ext. intros k. apply compiled_eq_interp; try assumption. now apply Forall_skipn.
 Qed.
 
-(* the witness for the excluded case: an optional word at the end of the pattern *)
-Definition opt_tail_pattern : pat := [WAlts [ALit [97]] false; WAlts [ALit [98]] true].
-Definition opt_tail_tokens : list tk := [mk_tk [97] 0 eName].
-Lemma opt_tail_refuted :
-  Forall (fun t => tk_inv t = true) opt_tail_tokens /\
-  compiled 0 opt_tail_pattern opt_tail_tokens = true /\
-  interp 0 opt_tail_pattern opt_tail_tokens = false /\
-  doc_lang 0 opt_tail_pattern opt_tail_tokens = true.
-Proof. repeat split. repeat constructor. Qed.
-
-(* compiled = documented language without the no_opt_tail restriction *)
-Theorem compiled_eq_doc varid p toks :
-  varid_ok varid p -> Forall (fun t => tk_inv t = true) toks ->
-  compiled varid p toks = doc_lang varid p toks.
-Proof.
-  revert toks. induction p as [|w ws IH]; intros toks Hv Htoks; [reflexivity|].
-  pose proof (varid_ok_tail _ _ _ Hv) as Hv'.
-  destruct w as [cs | l | atoms opt].
-  - destruct toks as [|t r]; [reflexivity|]. cbn. inversion Htoks; subst. now rewrite IH.
-  - destruct toks as [|t r]; cbn; [now apply IH|]. inversion Htoks; subst. now rewrite IH.
-  - assert (Hex : forall t, tk_inv t = true ->
-                existsb (fun a => catom_match varid a t) atoms = existsb (fun a => atom_match varid a t) atoms).
-    { intros t Ht. apply existsb_ext_in. intros a Ha. apply catom_match_eq; [assumption|].
-      now apply (varid_ok_atom varid atoms opt ws a). }
-    destruct opt.
-    + destruct toks as [|t r]; [cbn; now apply IH|].
-      inversion Htoks; subst. cbn. rewrite Hex by assumption.
-      destruct (existsb _ atoms); now apply IH.
-    + destruct toks as [|t r]; [reflexivity|]. inversion Htoks; subst. cbn.
-      rewrite Hex by assumption. destruct (existsb _ atoms); [now apply IH|reflexivity].
-Qed.
